@@ -483,3 +483,223 @@ Example found_recycled_ex :
   Nat.ltb 0 (nobj s0) = true /\ o_gone (heap s0 0%nat) = false /\ o_reused (heap s0 0%nat) = false /\
   option_map k_start (find_proc (tbl s0) (o_pid (heap s0 0%nat))) = Some 200 /\ o_start (heap s0 0%nat) = 100.
 Proof. vm_compute. repeat split. Qed.
+
+(* ================================================================================ *)
+(* Which object a resumption yields: the cached one exactly when it does not carry the reused flag. *)
+Definition visit_ok (hp : nat -> obj) (n : nat) (po : option nat) (o : nat) : Prop :=
+  match po with
+  | Some o' => if o_reused (hp o') then (n <= o)%nat else o = o'
+  | None => (n <= o)%nat
+  end.
+
+Lemma visit_ok_ext hp n hp' n' rest p po o :
+  rest_tok hp n rest -> In (p, po) rest -> (n <= n')%nat ->
+  (forall o', (o' < n)%nat -> (forall q, In (q, Some o') rest -> True) ->
+     In (p, Some o') rest -> o_reused (hp' o') = o_reused (hp o')) ->
+  visit_ok hp' n' po o -> visit_ok hp n po o.
+Proof.
+  intros Hr Hin Hn Hfl H. destruct po as [o'|]; cbn [visit_ok] in *; [|lia].
+  destruct (Hr p o' Hin) as [Ho' _]. rewrite (Hfl o' Ho' (fun _ _ => I) Hin) in H.
+  destruct (o_reused (hp o')); [lia|exact H].
+Qed.
+
+Lemma loop_exact t valid attrs : forall rest x,
+  rest_tok (l_hp x) (l_n x) rest -> NoDup (map fst rest) ->
+  match gen_loop t valid attrs x rest with
+  | LYield _ _ p o _ => exists po, In (p, po) rest /\ visit_ok (l_hp x) (l_n x) po o
+  | _ => True
+  end.
+Proof.
+  induction rest as [|[pid po] rest IH]; intros x Hr Hnd; [exact I|].
+  cbn [gen_loop].
+  assert (Hr' : rest_tok (l_hp x) (l_n x) rest) by (intros p o Hin; apply Hr; now right).
+  cbn [map fst] in Hnd. inversion Hnd as [|? ? Hni Hnd']; subst.
+  (* what the tail's answer means for the whole list, when the heap changed only at [oc] or beyond the counter *)
+  assert (Hlift : forall x2,
+            heap_ext (l_hp x) (l_n x) (l_hp x2) (l_n x2) ->
+            (forall o', (o' < l_n x)%nat -> o_pid (l_hp x o') <> pid -> o_reused (l_hp x2 o') = o_reused (l_hp x o')) ->
+            match gen_loop t valid attrs x2 rest with
+            | LYield _ _ p o _ => exists po0, In (p, po0) rest /\ visit_ok (l_hp x2) (l_n x2) po0 o
+            | _ => True end ->
+            match gen_loop t valid attrs x2 rest with
+            | LYield _ _ p o _ => exists po0, In (p, po0) ((pid, po) :: rest) /\ visit_ok (l_hp x) (l_n x) po0 o
+            | _ => True end).
+  { intros x2 He Hfl H. destruct (gen_loop t valid attrs x2 rest) as [x' rest' p o i| | |]; try exact I.
+    destruct H as [po0 [Hin Hv]]. exists po0. split; [now right|].
+    destruct po0 as [o'|]; cbn [visit_ok] in *; [|destruct He; lia].
+    destruct (Hr' p o' Hin) as [Ho' Hp'].
+    assert (Hne : o_pid (l_hp x o') <> pid).
+    { rewrite Hp'. intros ->. apply Hni. apply in_map_iff. exists (pid, Some o'). now split. }
+    rewrite (Hfl o' Ho' Hne) in Hv. destruct (o_reused (l_hp x o')); [destruct He; lia|exact Hv]. }
+  destruct (match po with Some o => if o_reused (l_hp x o) then None else Some o | None => None end) as [o|] eqn:Ecached.
+  - assert (Epo : po = Some o /\ o_reused (l_hp x o) = false).
+    { destruct po as [o'|]; [|discriminate]. destruct (o_reused (l_hp x o')) eqn:E; [discriminate|]. inversion Ecached; subst. now split. }
+    destruct Epo as [-> Hnf]. destruct (Hr pid o (or_introl eq_refl)) as [Ho Hp].
+    assert (Hhere : exists po0, In (pid, po0) ((pid, Some o) :: rest) /\ visit_ok (l_hp x) (l_n x) po0 o).
+    { exists (Some o). split; [now left|]. cbn [visit_ok]. now rewrite Hnf. }
+    destruct attrs as [l|]; [|exact Hhere].
+    destruct (as_dict t valid (l_ru x) pid (l_hp x o) l) as [[r ob'] ru'] eqn:Ead.
+    destruct r as [keys|e|]; [exact Hhere| |exact I].
+    destruct e; try exact I.
+    pose proof (as_dict_pid _ _ _ _ _ _ _ _ _ Ead) as Hpid.
+    set (x2 := {| l_pm := ddel pid (l_pm x); l_hp := upd_heap (l_hp x) o ob'; l_n := l_n x; l_ru := ru' |}).
+    assert (He : heap_ext (l_hp x) (l_n x) (l_hp x2) (l_n x2)) by (unfold x2; cbn [l_hp l_n]; apply heap_ext_upd; [exact Ho|exact Hpid]).
+    apply (Hlift x2 He).
+    + intros o' Ho' Hne. cbn [x2 l_hp]. unfold upd_heap. destruct (Nat.eqb o' o) eqn:E; [|reflexivity].
+      apply Nat.eqb_eq in E. subst o'. congruence.
+    + apply IH; [exact (rest_tok_ext _ _ _ _ _ He Hr')|exact Hnd'].
+  - destruct (find_proc t pid) as [k|].
+    + set (hp1 := upd_heap (l_hp x) (l_n x) (new_obj pid (k_start k))).
+      assert (Hhere : exists po0, In (pid, po0) ((pid, po) :: rest) /\ visit_ok (l_hp x) (l_n x) po0 (l_n x)).
+      { exists po. split; [now left|]. destruct po as [o'|]; cbn [visit_ok]; [|lia].
+        destruct (o_reused (l_hp x o')); [lia|discriminate]. }
+      destruct attrs as [l|]; [|exact Hhere].
+      cbn [l_ru l_hp l_n l_pm].
+      destruct (as_dict t valid (l_ru x) pid (hp1 (l_n x)) l) as [[r ob'] ru'] eqn:Ead.
+      destruct r as [keys|e|]; [exact Hhere| |exact I].
+      destruct e; try exact I.
+      pose proof (as_dict_pid _ _ _ _ _ _ _ _ _ Ead) as Hpid.
+      set (x2 := {| l_pm := ddel pid (dset pid (l_n x) (l_pm x)); l_hp := upd_heap hp1 (l_n x) ob'; l_n := S (l_n x); l_ru := ru' |}).
+      assert (He0 : heap_ext (l_hp x) (l_n x) hp1 (S (l_n x))) by apply heap_ext_new.
+      assert (He1 : heap_ext hp1 (S (l_n x)) (l_hp x2) (l_n x2)) by (unfold x2; cbn [l_hp l_n]; apply heap_ext_upd; [lia|exact Hpid]).
+      pose proof (heap_ext_trans _ _ _ _ _ _ He0 He1) as He.
+      apply (Hlift x2 He).
+      * intros o' Ho' Hne. cbn [x2 l_hp]. unfold upd_heap, hp1, upd_heap.
+        assert (Nat.eqb o' (l_n x) = false) as -> by (apply Nat.eqb_neq; lia). reflexivity.
+      * apply IH; [exact (rest_tok_ext _ _ _ _ _ He Hr')|exact Hnd'].
+    + set (x2 := {| l_pm := ddel pid (l_pm x); l_hp := l_hp x; l_n := l_n x; l_ru := l_ru x |}).
+      apply (Hlift x2 (heap_ext_refl _ _)); [intros; reflexivity|]. apply IH; [exact Hr'|exact Hnd'].
+Qed.
+
+(* ================================================================================ *)
+(* An object stays without the reused flag as long as the table shows its PID with its start time. *)
+Definition kept (x0 : nat) (p0 st0 : Z) (hp : nat -> obj) (n : nat) : Prop :=
+  (x0 < n)%nat /\ o_pid (hp x0) = p0 /\ o_start (hp x0) = st0 /\ o_reused (hp x0) = false.
+
+Lemma is_running_keep t ru pid ob r ob' ru' k :
+  is_running_obj t ru pid ob = (r, ob', ru') -> find_proc t pid = Some k -> k_start k = o_start ob ->
+  o_reused ob = false -> o_pid ob' = o_pid ob /\ o_start ob' = o_start ob /\ o_reused ob' = false.
+Proof.
+  unfold is_running_obj. intros H Hf Hs Hr. rewrite Hf, Hs, Z.eqb_refl in H.
+  destruct (o_gone ob || o_reused ob); inversion H; subst; auto.
+Qed.
+
+Lemma as_dict_keep t valid ru pid ob l r ob' ru' k :
+  as_dict t valid ru pid ob l = (r, ob', ru') -> find_proc t pid = Some k -> k_start k = o_start ob ->
+  o_reused ob = false -> o_pid ob' = o_pid ob /\ o_start ob' = o_start ob /\ o_reused ob' = false.
+Proof.
+  unfold as_dict. intros H Hf Hs Hr. destruct (existsb _ _); [inversion H; subst; auto|].
+  destruct (zmem PPID _).
+  - destruct (o_gone ob || o_reused ob); [inversion H; subst; auto|].
+    destruct (_ && negb (alive t pid)); [inversion H; subst; auto|].
+    destruct (is_running_obj t ru pid ob) as [[r1 ob1] ru1] eqn:E.
+    pose proof (is_running_keep _ _ _ _ _ _ _ _ E Hf Hs Hr) as K.
+    destruct r1; inversion H; subst; exact K.
+  - destruct (_ && negb (alive t pid)); inversion H; subst; auto.
+Qed.
+
+Lemma kept_upd x0 p0 st0 hp n o ob2 :
+  kept x0 p0 st0 hp n ->
+  (o = x0 -> o_pid ob2 = p0 /\ o_start ob2 = st0 /\ o_reused ob2 = false) ->
+  kept x0 p0 st0 (upd_heap hp o ob2) n.
+Proof.
+  intros [Hx [H1 [H2 H3]]] Ho. unfold kept, upd_heap. destruct (Nat.eqb x0 o) eqn:E.
+  - apply Nat.eqb_eq in E. symmetry in E. destruct (Ho E) as [A [B C]]. auto.
+  - auto.
+Qed.
+
+Lemma kept_new x0 p0 st0 hp n ob2 : kept x0 p0 st0 hp n -> kept x0 p0 st0 (upd_heap hp n ob2) (S n).
+Proof.
+  intros [Hx [H1 [H2 H3]]]. unfold kept, upd_heap.
+  assert (Nat.eqb x0 n = false) as -> by (apply Nat.eqb_neq; lia). repeat split; auto.
+Qed.
+
+Lemma loop_keep t valid attrs x0 p0 st0 k :
+  find_proc t p0 = Some k -> k_start k = st0 ->
+  forall rest x, rest_tok (l_hp x) (l_n x) rest -> kept x0 p0 st0 (l_hp x) (l_n x) ->
+  kept x0 p0 st0 (l_hp (lres_state (gen_loop t valid attrs x rest))) (l_n (lres_state (gen_loop t valid attrs x rest))).
+Proof.
+  intros Hf Hs. induction rest as [|[pid po] rest IH]; intros x Hr Hk; [exact Hk|].
+  cbn [gen_loop].
+  assert (Hr' : rest_tok (l_hp x) (l_n x) rest) by (intros p o Hin; apply Hr; now right).
+  destruct (match po with Some o => if o_reused (l_hp x o) then None else Some o | None => None end) as [o|] eqn:Ecached.
+  - assert (Epo : po = Some o).
+    { destruct po as [o'|]; [|discriminate]. destruct (o_reused (l_hp x o')); [discriminate|]. now inversion Ecached. }
+    subst po. destruct (Hr pid o (or_introl eq_refl)) as [Ho Hp].
+    destruct attrs as [l|]; [|exact Hk].
+    destruct (as_dict t valid (l_ru x) pid (l_hp x o) l) as [[r ob'] ru'] eqn:Ead.
+    pose proof (as_dict_pid _ _ _ _ _ _ _ _ _ Ead) as Hpid.
+    assert (Hown : o = x0 -> o_pid ob' = p0 /\ o_start ob' = st0 /\ o_reused ob' = false).
+    { intros ->. destruct Hk as [_ [K1 [K2 K3]]].
+      assert (Epid : pid = p0) by congruence. rewrite Epid in Ead.
+      destruct (as_dict_keep _ _ _ _ _ _ _ _ _ _ Ead Hf ltac:(congruence) K3) as [A [B C]].
+      repeat split; congruence. }
+    assert (He : heap_ext (l_hp x) (l_n x) (upd_heap (l_hp x) o ob') (l_n x)) by (apply heap_ext_upd; [exact Ho|exact Hpid]).
+    destruct r as [keys|e|]; [| |exact Hk].
+    + cbn [lres_state l_hp l_n]. apply kept_upd; [exact Hk|]. intros E. cbn [set_info o_pid o_start o_reused]. now apply Hown.
+    + destruct e; try (cbn [lres_state l_hp l_n]; apply kept_upd; [exact Hk|exact Hown]).
+      apply (IH {| l_pm := ddel pid (l_pm x); l_hp := upd_heap (l_hp x) o ob'; l_n := l_n x; l_ru := ru' |}).
+      * exact (rest_tok_ext _ _ _ _ _ He Hr').
+      * apply kept_upd; [exact Hk|exact Hown].
+  - destruct (find_proc t pid) as [k1|].
+    + pose proof (kept_new x0 p0 st0 (l_hp x) (l_n x) (new_obj pid (k_start k1)) Hk) as Hk1.
+      set (hp1 := upd_heap (l_hp x) (l_n x) (new_obj pid (k_start k1))) in *.
+      assert (He0 : heap_ext (l_hp x) (l_n x) hp1 (S (l_n x))) by apply heap_ext_new.
+      destruct attrs as [l|]; [|exact Hk1].
+      cbn [l_ru l_hp l_n l_pm].
+      destruct (as_dict t valid (l_ru x) pid (hp1 (l_n x)) l) as [[r ob'] ru'] eqn:Ead.
+      pose proof (as_dict_pid _ _ _ _ _ _ _ _ _ Ead) as Hpid.
+      assert (Hown : l_n x = x0 -> o_pid ob' = p0 /\ o_start ob' = st0 /\ o_reused ob' = false).
+      { intros E. destruct Hk as [Hx _]. lia. }
+      assert (He1 : heap_ext hp1 (S (l_n x)) (upd_heap hp1 (l_n x) ob') (S (l_n x))) by (apply heap_ext_upd; [lia|exact Hpid]).
+      destruct r as [keys|e|]; [| |exact Hk1].
+      * cbn [lres_state l_hp l_n]. apply kept_upd; [exact Hk1|]. intros E. destruct Hk as [Hx _]. lia.
+      * destruct e; try (cbn [lres_state l_hp l_n]; apply kept_upd; [exact Hk1|exact Hown]).
+        apply (IH {| l_pm := ddel pid (dset pid (l_n x) (l_pm x)); l_hp := upd_heap hp1 (l_n x) ob'; l_n := S (l_n x); l_ru := ru' |}).
+        -- exact (rest_tok_ext _ _ _ _ _ (heap_ext_trans _ _ _ _ _ _ He0 He1) Hr').
+        -- apply kept_upd; [exact Hk1|exact Hown].
+    + apply (IH {| l_pm := ddel pid (l_pm x); l_hp := l_hp x; l_n := l_n x; l_ru := l_ru x |}); [exact Hr'|exact Hk].
+Qed.
+
+Lemma run_loop_keep valid x0 p0 st0 k s g a pm rest :
+  find_proc (tbl s) p0 = Some k -> k_start k = st0 ->
+  rest_tok (heap s) (nobj s) rest -> kept x0 p0 st0 (heap s) (nobj s) ->
+  kept x0 p0 st0 (heap (fst (run_loop valid s g a pm rest))) (nobj (fst (run_loop valid s g a pm rest))).
+Proof.
+  intros Hf Hs Hr Hk.
+  pose proof (run_loop_facts valid s g a pm rest) as F. cbn zeta in F. destruct F as [_ [Fh [Fn _]]].
+  rewrite Fh, Fn.
+  exact (loop_keep (tbl s) valid a x0 p0 st0 k Hf Hs rest {| l_pm := pm; l_hp := heap s; l_n := nobj s; l_ru := reused s |} Hr Hk).
+Qed.
+
+(* one event, any event: if the table shows p0 with start st0 before it, object x0 keeps its clean state *)
+Lemma keep_step valid x0 p0 st0 k s e :
+  Kpid s -> find_proc (tbl s) p0 = Some k -> k_start k = st0 ->
+  kept x0 p0 st0 (heap s) (nobj s) ->
+  kept x0 p0 st0 (heap (fst (step valid s e))) (nobj (fst (step valid s e))).
+Proof.
+  intros [K1 [K2 K3]] Hf Hs Hk. destruct e; cbn [step].
+  - destruct (_ && _); exact Hk.
+  - exact Hk.
+  - exact Hk.
+  - destruct (_ && _); exact Hk.
+  - exact Hk.
+  - destruct (pids_sorted _) as [[l low]| |]; exact Hk.
+  - destruct (n <? 0); [exact Hk|]. destruct (n =? 0); [|exact Hk]. destruct (pids_sorted _) as [[l low]| |]; exact Hk.
+  - exact Hk.
+  - destruct (Nat.leb (ngen s) g); [exact Hk|].
+    destruct (gens s g) as [a|a pm rest|] eqn:Eg; [| |exact Hk].
+    + destruct (gen_start _ _ _) as [[[pm ls] low]|e|] eqn:Es; [|exact Hk|exact Hk].
+      destruct (gen_start_sub _ _ _ _ _ _ Es) as [S1 S2].
+      apply (run_loop_keep valid x0 p0 st0 k (mk s (tbl s) (pmap s) [] (Some low) (heap s) (nobj s) (gens s) (ngen s)));
+        [exact Hf|exact Hs| |exact Hk].
+      intros p o Hin. apply K1. apply S1. now apply S2.
+    + apply (run_loop_keep valid x0 p0 st0 k s); [exact Hf|exact Hs|exact (proj2 (K2 _ _ _ _ Eg))|exact Hk].
+  - destruct (Nat.leb (ngen s) g); [exact Hk|]. destruct (gens s g); exact Hk.
+  - exact Hk.
+  - destruct (Nat.leb (nobj s) o) eqn:Ho; [exact Hk|].
+    destruct (is_running_obj _ _ _ _) as [[r ob'] ru'] eqn:Er. cbn [fst mk heap nobj].
+    apply kept_upd; [exact Hk|]. intros ->. destruct Hk as [_ [A [B C]]].
+    rewrite A in Er. destruct (is_running_keep _ _ _ _ _ _ _ _ Er Hf ltac:(congruence) C) as [P [Q R]].
+    repeat split; congruence.
+Qed.
